@@ -10,7 +10,7 @@ from hypothesis import strategies as st
 
 ID = 'C01'
 LEVEL = 'exploration'
-RULE = ('Grouped part (vlib/c01_group.py): aggregate projections (keys + count/sum/min/max/avg, distinct variants, navigation '
+RULE = ('Date part (vlib/c01_dates.py): date / datetime attribute +- timedelta (literal or parameter) in projections and filters against Python date arithmetic. Grouped part (vlib/c01_group.py): aggregate projections (keys + count/sum/min/max/avg, distinct variants, navigation '
         'through Optional/Required references incl. a composite-key target) over 0-7 rows judged by a Python group-by; rows '
         'whose navigated Optional reference is None may be kept or dropped per reference. Main part: '
         'A case is (data set, query): data = 0-4 A rows, 0-6 B rows, 0-3 C rows over small colliding domains with NULLs, empty '
@@ -233,6 +233,19 @@ def run(ctx):
         if status == 'violation':
             ctx.fail(case, msg)
     ctx.run_test(tg, dict(case=c01_group.cases()), max_examples=ctx.scale(500, 4000), name="C01_group")
+    if ctx.violation is not None:
+        return
+
+    # date part: date / datetime +- timedelta (vlib/c01_dates.py)
+    from vlib import c01_dates
+
+    def td_(case):
+        msg = c01_dates.judge(case)
+        ctx.case(key=case, nontrivial=case['td'][1] != 0 or case['position'] == 'filter', classes=['accepted', 'dates', 'dates:' + case['form']],
+                 sample={'attr': case['attr'], 'sign': case['sign'], 'td': case['td'], 'form': case['form'], 'position': case['position']})
+        if msg:
+            ctx.fail(case, msg)
+    ctx.run_test(td_, dict(case=c01_dates.cases()), max_examples=ctx.scale(200, 2000), name="C01_dates")
 
 
 def replay(case):
@@ -250,6 +263,9 @@ def replay(case):
             if self.msg is None:
                 self.msg = message
     c = Ctx()
+    if case.get('kind') == 'dates':
+        from vlib import c01_dates
+        return c01_dates.judge(case)
     if case.get('kind') == 'group':
         from vlib import c01_group
         status, msg = c01_group.judge(case)
@@ -258,6 +274,30 @@ def replay(case):
         check_case(c, case['data'], case['query'])
     return c.msg
 
+
+def _x_date_minus_fractional_timedelta_param(case, message):
+    """open finding C01-sqlite-date-minus-fractional-timedelta-parameter: date attribute minus a timedelta PARAMETER that has a
+    fraction of a day (the literal form was repaired)"""
+    return (case.get('kind') == 'dates' and case.get('attr') == 'd' and case.get('sign') == '-' and case.get('form') == 'param'
+            and case.get('td', [0, 0])[1] != 0)
+
+
+def _x_datetime_arithmetic_equal_second(case, message):
+    """open finding C01-sqlite-datetime-arithmetic-compared-as-text: the result of datetime +- timedelta is rendered without the
+    fraction of a second and compared as text with stored values / parameters that carry six fraction digits: wrong exactly
+    when both are equal to the second"""
+    if case.get('kind') != 'dates' or case.get('attr') != 'dt' or case.get('position') != 'filter':
+        return False
+    import datetime
+    rows = [datetime.datetime.fromisoformat(dt) for d, dt in case['rows']]
+    td = datetime.timedelta(days=case['td'][0], seconds=case['td'][1])
+    vals = [r + td if case['sign'] == '+' else r - td for r in rows]
+    limit = vals[case['limit_row'] % len(rows)] + datetime.timedelta(seconds=case.get('limit_off') or 0)
+    return any(v == limit for v in vals)
+
+
+EXCLUSIONS = {'date_minus_fractional_timedelta_param': _x_date_minus_fractional_timedelta_param,
+              'datetime_arithmetic_equal_second': _x_datetime_arithmetic_equal_second}
 
 MANIFEST = {
     'text': 'Generated data x generated queries from a typed grammar, executed through the string, generator (decompiler) and '
